@@ -155,7 +155,9 @@ func (b *builder) processAxis(root *axisNode, flags flag, props *builderProp) (q
 	case "self":
 		qyOutput = &selfQuery{Input: qyInput, Predicate: predicate}
 	case "namespace":
-		// haha,what will you do someting??
+		// The namespace axis is not supported: say so at compile time rather
+		// than building a nil query that fails when it is evaluated.
+		return nil, errors.New("xpath: the namespace axis is not supported")
 	default:
 		err = fmt.Errorf("unknown axe type: %s", root.AxisType)
 		return nil, err
@@ -685,6 +687,11 @@ func (b *builder) processNode(root node, flags flag, props *builderProp) (q quer
 		q, err = b.processFunction(root.(*functionNode), props)
 	case nodeOperator:
 		q, err = b.processOperator(root.(*operatorNode), props)
+	case nodeVariable:
+		// Variables cannot be bound; only a whole-expression '$x' used to be
+		// caught (by the nil check in Compile), '$x/a' or 'f($x)' built a query
+		// holding a nil input.
+		err = fmt.Errorf("xpath: undeclared variable $%s", root.(*variableNode).Name)
 	case nodeGroup:
 		q, err = b.processNode(root.(*groupNode).Input, flagsEnum.None, props)
 		if err != nil {
